@@ -125,6 +125,10 @@ func cmdC09Unit(args []string) error {
 				modes = append(modes, []int{i, n})
 			}
 		}
+		// one cache chunk of the bsdiff applier's read cache (32 KiB = one unit): it may enter a block in its middle
+		for j := 0; j < len(sg); j++ {
+			modes = append(modes, []int{-2, j})
+		}
 		for _, ac := range actualSeqs {
 			for _, mode := range modes {
 				id++
@@ -153,7 +157,22 @@ func cmdC09Unit(args []string) error {
 				var outb bytes.Buffer
 				buf := make([]byte, 32*1024)
 				var rerr error
-				if mode[0] == -1 {
+				if mode[0] == -2 {
+					// lrufile.getChunk: Seek to the chunk, io.ReadFull of one chunk (a short last chunk is fine)
+					var rs io.ReadSeeker
+					rs, rerr = sk.GetReadSeeker(0)
+					if rerr == nil {
+						_, rerr = rs.Seek(int64(mode[1])*int64(unit), io.SeekStart)
+					}
+					if rerr == nil {
+						var n int
+						n, rerr = io.ReadFull(rs, buf[:unit])
+						if rerr == io.ErrUnexpectedEOF || rerr == io.EOF {
+							rerr = nil
+						}
+						outb.Write(buf[:n])
+					}
+				} else if mode[0] == -1 {
 					// freshBowl.Transpose
 					var r io.Reader
 					r, rerr = sk.GetReader(0)
